@@ -316,6 +316,7 @@ var logger = zap.NewNop()
 
 // opening an in-memory badger costs ~150 ms; sequential behaviours share one database that is wiped in between
 var sharedDB *kv.BadgerDB
+var sharedUses int
 
 func wipe(db *kv.BadgerDB) {
 	for _, pfx := range []string{"pratersigner_data-highest_att-", "pratersigner_data-highest_prop-",
@@ -337,9 +338,15 @@ func newWorld(spe int, res *vh.Result, beh string) *world { return newWorldDB(sp
 
 func newWorldDB(spe int, res *vh.Result, beh string, shared bool) *world {
 	var inner *kv.BadgerDB
+	if shared && sharedDB != nil && sharedUses >= 400 {
+		// badger keeps the deleted versions in its memtable: iteration slows down with every wipe
+		_ = sharedDB.Close()
+		sharedDB, sharedUses = nil, 0
+	}
 	if shared && sharedDB != nil {
 		inner = sharedDB
 		wipe(inner)
+		sharedUses++
 	} else {
 		var err error
 		inner, err = kv.NewInMemory(logger, basedb.Options{})
@@ -825,6 +832,21 @@ func replay(b vh.Behaviour, spe int, res *vh.Result) {
 			cmpPost(w, b, i, a, res)
 			if out == "signed" && (len(w.atts)+len(w.blks)) >= 2 {
 				nontrivial = true
+			}
+			// shadow request (faithful behaviours only): the same duty with DIFFERENT data right after the call.
+			// The spec refuses it in every state (after a release the record covers it, after a refusal nothing
+			// changed), so the real code must refuse it too; if it signs, the monitor sees a second root.
+			if p.none() && !strings.HasPrefix(b.ID, "attack") && (out == "signed" || out == "refused") {
+				var sh string
+				if name == "SignAtt" {
+					sh, _, _ = w.signAtt(vh.Int(a, "s"), vh.Int(a, "t"), vh.Int(a, "d")+2, plan{K: "none"})
+				} else {
+					sh, _, _ = w.signBlk(vh.Int(a, "slot"), vh.Int(a, "d")+2, plan{K: "none"})
+				}
+				res.Counters["shadow_requests"]++
+				if sh != "refused" {
+					res.Diverge(b.ID, i, name+".shadow", "refused", sh)
+				}
 			}
 		case "SignCheck":
 			out := w.signCheck(vh.Int(a, "s"), vh.Int(a, "t"), vh.Int(a, "d"))
